@@ -82,7 +82,8 @@ pub fn cells_for(prop: &str, directed: bool) -> Vec<Cell> {
 
 pub fn with_target(cell: &Cell, target: Option<Key>) -> Cell {
     match cell {
-        Cell::Search(c) if c.term != Term::Cycle => Cell::Search(SearchCfg { target, ..*c }),
+        // (for search_cycle the target is an option the call must ignore: it looks for the root)
+        Cell::Search(c) => Cell::Search(SearchCfg { target, ..*c }),
         c => c.clone(),
     }
 }
@@ -343,6 +344,8 @@ fn exhaustive_graph<F: Flavour>(prop: &str, g: &GCase, st: &mut Stats, all_subse
         for &root in &combos.roots {
             let tlist: Vec<Option<Key>> = match &cell {
                 Cell::Search(c) if c.term != Term::Cycle => combos.targets.iter().cloned().filter(|t| *t != Some(root)).collect(),
+                // search_cycle looks for the root whatever target() was given before
+                Cell::Search(_) => vec![None, Some(((root as usize + 1) % g.n.max(1)) as Key)],
                 _ => vec![None],
             };
             for t in tlist {
@@ -632,6 +635,7 @@ pub fn run_raw(prop: &str, raw: &RawG, st: &mut Stats, counting: bool) -> bool {
                             vec![Some(target)]
                         }
                     }
+                    Cell::Search(_) => vec![None, Some(target)],
                     _ => vec![None],
                 };
                 for t in targets {
@@ -906,7 +910,8 @@ pub fn run(prop: &'static str, ctx: &mut Ctx) {
     big_family(&sizes, |g, r, t| bigs.push((g.clone(), r, t)));
     // deep chains (recursion depth of the recursive traversals, thresholds in the thousands): a path with one skip
     // edge at the start and one back edge near the end; plain cells search 0 -> n-1, transposed ones n-1 -> 0
-    let deep_sizes: Vec<usize> = tier.pick(vec![5000], vec![5000, 9000, 20_000, 60_000]);
+    // (the priority-order oracle is quadratic in the chain length: C06 keeps the short chain only)
+    let deep_sizes: Vec<usize> = if prop == "C06" || prop == "C04" { vec![5000] } else { tier.pick(vec![5000, 20_000], vec![5000, 9000, 20_000, 40_000, 65_000]) };
     for &n in &deep_sizes {
         let mut e: Vec<Tri> = (0..n - 1).map(|i| (i as Key, (i + 1) as Key, 7 + (i % 3) as EV)).collect();
         e.push((0, 2, 1));
@@ -914,6 +919,15 @@ pub fn run(prop: &'static str, ctx: &mut Ctx) {
         bigs.push((GCase { n, prio: (0..n).map(|i| ((i * 7) % 5) as i32).collect(), edges: e }, 0, (n - 1) as Key));
     }
     ctx.stats.extra.insert("deep_chain_sizes".into(), json!(deep_sizes));
+    // one wide hub (in- and out-degree above 4096): 0 -> i and i -> 0 for every i, plus a chain among the first spokes
+    if prop != "C06" {
+        for &n in &tier.pick(vec![4200usize], vec![4200, 8400, 17_000]) {
+            let mut e: Vec<Tri> = (1..n).map(|i| (0 as Key, i as Key, 3 + (i % 4) as EV)).collect();
+            e.extend((1..n).map(|i| (i as Key, 0 as Key, 1 + (i % 2) as EV)));
+            e.extend((1..40).map(|i| (i as Key, (i + 1) as Key, 9)));
+            bigs.push((GCase { n, prio: (0..n).map(|i| ((i * 3) % 4) as i32).collect(), edges: e }, 0, (n - 1) as Key));
+        }
+    }
     let big = parallel(workers.min(bigs.len().max(1)), |w| {
         let mut st = Stats::new();
         for (i, (g, r, t)) in bigs.iter().enumerate() {
@@ -930,6 +944,14 @@ pub fn run(prop: &'static str, ctx: &mut Ctx) {
                     let nodes = build::<$F>(g);
                     for cell in cells_for(prop, <$F>::DIRECTED) {
                         wd.tick();
+                        // the very deep chains are there for the recursive traversals (dfs, orderings); the
+                        // priority-order oracle is quadratic in the chain length
+                        if g.n > 6000 && matches!(&cell, Cell::Search(c) if c.algo != Algo::Dfs) {
+                            continue;
+                        }
+                        if g.n > 4000 && matches!(&cell, Cell::Search(c) if matches!(c.algo, Algo::PfsMin | Algo::PfsMax)) {
+                            continue;
+                        }
                         let (root, target) = if cell.transposed() { (*t, *r) } else { (*r, *t) };
                         let cell = with_target(&cell, Some(target));
                         // filters: nothing rejected / every third edge rejected
@@ -951,6 +973,10 @@ pub fn run(prop: &'static str, ctx: &mut Ctx) {
                         }
                         if prop == "C08" {
                             ms.push(MethSpec::Relax);
+                        }
+                        if g.n > 4000 {
+                            // very deep chains and the wide hub: one closure kind per cell, alternating
+                            ms = vec![if cell.transposed() { MethSpec::ForEach } else { MethSpec::None }];
                         }
                         for m in ms {
                             let c = SCase { g: g.clone(), root, cell: cell.clone(), meth: m };
